@@ -47,26 +47,42 @@ func NewGuardianSets(
 	return gs
 }
 
-func (gs *GuardianSets) GetGuardianSet(ctx context.Context, index int) (*common.GuardianSet, error) {
+// lookup returns the guardian set with the given index if it is known. The index and the list are
+// read under the lock: updateGuardianSets changes both, and an unlocked reader could see the new
+// index together with the old, shorter list.
+func (gs *GuardianSets) lookup(index int) (*common.GuardianSet, int) {
+	gs.lock.Lock()
+	defer gs.lock.Unlock()
 	if index <= gs.currentGuardianSetIndex {
-		return gs.guardianSetLists[index], nil
+		return gs.guardianSetLists[index], gs.currentGuardianSetIndex
+	}
+	return nil, gs.currentGuardianSetIndex
+}
+
+func (gs *GuardianSets) GetGuardianSet(ctx context.Context, index int) (*common.GuardianSet, error) {
+	guardianSet, current := gs.lookup(index)
+	if guardianSet != nil {
+		return guardianSet, nil
 	}
 
 	// Perhaps the guardian set has been updated and we need to query from the chain
-	guardianSets, err := gs.getGuardianSetsRange(ctx, uint32(gs.currentGuardianSetIndex+1), uint32(index))
+	guardianSets, err := gs.getGuardianSetsRange(ctx, uint32(current+1), uint32(index))
 	if err != nil {
 		return nil, err
 	}
 	gs.updateGuardianSets(guardianSets)
 	gs.guardianSetC <- gs.GetCurrentGuardianSet()
 
-	if index > gs.currentGuardianSetIndex {
-		return nil, fmt.Errorf("invalid guardian index %v, current guardian set index: %v", index, gs.currentGuardianSetIndex)
+	guardianSet, current = gs.lookup(index)
+	if guardianSet == nil {
+		return nil, fmt.Errorf("invalid guardian index %v, current guardian set index: %v", index, current)
 	}
-	return gs.guardianSetLists[index], nil
+	return guardianSet, nil
 }
 
 func (gs *GuardianSets) GetCurrentGuardianSet() *common.GuardianSet {
+	gs.lock.Lock()
+	defer gs.lock.Unlock()
 	return gs.guardianSetLists[gs.currentGuardianSetIndex]
 }
 
